@@ -70,6 +70,18 @@ def mentions_read(node, names):
     """node contains DATA[...] for one of the names"""
     return any(isinstance(n, ast.Subscript) and isinstance(n.value, ast.Name) and n.value.id in names for n in ast.walk(node))
 
+def assigns(node, names):
+    for n in ast.walk(node):
+        tg = []
+        if isinstance(n, ast.Assign):
+            tg = n.targets
+        elif isinstance(n, (ast.AugAssign, ast.AnnAssign)):
+            tg = [n.target]
+        for t in tg:
+            if any(isinstance(x, ast.Name) and x.id in names for x in ast.walk(t)):
+                return True
+    return False
+
 def mentions(node, names):
     return any(isinstance(n, ast.Name) and n.id in names for n in ast.walk(node))
 
@@ -138,6 +150,8 @@ def analyse(fn, datanames, idxnames=('indx', 'idx', 'index'), start=None, body=N
             names = tuple(datanames) + ((idxname,) if idxname else tuple(idxnames))
             if not mentions(st, names):
                 continue   # compound statement that touches neither the data nor the index
+            if isinstance(st, ast.If) and not mentions_read(st, datanames) and not assigns(st, (idxname,) if idxname else tuple(idxnames)):
+                continue   # a guard (e.g. a size check that raises): no read can hide in it, the index is not moved
             break
         if fields:
             break          # anything else after the reads: straight-line part ends
@@ -197,9 +211,11 @@ EXTRA_READERS = [
     ('cast_shape', 'drxtract/cast/shape.py', 'ShapeParser', 'parse', ('header_data',), None),
     ('cast_text', 'drxtract/cast/text.py', 'TextParser', 'parse', ('header_data',), None),
     ('cast_transition', 'drxtract/cast/transition.py', 'TransitionParser', 'parse', ('header_data',), None),
+    ('lscr_header', 'drxtract/lingosrc/parse/lscr.py', None, 'parse_lrcr_file_header', ('fdata',), 92),
+    ('lscr_frb', 'drxtract/lingosrc/parse/lscr.py', None, 'parse_frb', ('fdata',), 42),
 ]
 # readers that are the body of the k-th loop (0-based, among the loops reading the data variable) of the function
-LOOP_BODIES = {'stxt_run': 0, 'fmap_meta': 0, 'cast_image_ext': 0}
+LOOP_BODIES = {'stxt_run': 0, 'fmap_meta': 0, 'cast_image_ext': 0, 'lscr_frb': 0}
 # byte offset at which a block body starts (the end of the straight-line part before it)
 BLOCK_START = {'cast_image_ext': 23}
 
